@@ -220,7 +220,11 @@ fn random_vec(rng: &mut StdRng) -> Vector {
 
 fn main() {
     let args: Vec<String> = std::env::args().collect();
-    std::panic::set_hook(Box::new(|_| {}));
+    std::panic::set_hook(Box::new(|i| {
+        if std::env::var("CB_DEBUG").is_ok() {
+            eprintln!("[panic] {i}");
+        }
+    }));
     let seed: u64 = arg(&args, "--seed").map(|s| s.parse().unwrap()).unwrap_or(1);
     let n: usize = arg(&args, "--n").map(|s| s.parse().unwrap()).unwrap_or(2000);
     let out = arg(&args, "--out").expect("--out");
